@@ -24,7 +24,7 @@ def jobs(tier):
     for pre, spec, k in (('sat', S, 6), ('lra', L, 1), ('dl', D, 5), ('ov', O, 4)):
         ms = [m for m in members(spec.jobs(tier)) if 'pop' in m.desc or 'history' in m.desc]
         if tier == 'quick':
-            ms = ms[::2] if pre in ('sat', 'dl') else ms
+            ms = ms[::3] if pre == 'dl' else ms[::2] if pre in ('sat', 'lra') else ms
         for m in ms:
             m.name = pre + '/' + m.name
             if m.params and m.params[0] == 1 and len(m.params) > 2 and m.params[1] == len(m.params) - 2:
